@@ -28,6 +28,7 @@ from ..sim import HarnessError, Abort, MS
 PID = "C06"
 TO_NODE = 0  # the node under test is the master (every sender is one of its children)
 STRAY_SENDER, UNFRAG_SENDER = 0o4, 0o5
+ALL_KINDS = ("next", "skip", "twice", "swap", "rewind")
 
 
 # ---------------------------------------------------------------- configurations
@@ -42,7 +43,9 @@ def cfg_list(tier, seed):
     c.append(dict(name="2-senders-same-id", streams=[S(0o1, X, 65, 2), S(0o2, X, 66, 3)], strays=False))
     c.append(dict(name="2-senders-other-id", streams=[S(0o1, X, 65, 3), S(0o2, Y, 66, 2)], strays=False))
     c.append(dict(name="1-sender-two-ids", streams=[S(0o1, X, 65, 2), S(0o1, Y, 65, 3)], strays=False))
-    c.append(dict(name="3-senders", streams=[S(0o1, X, 65, 2), S(0o2, X, 66, 2), S(0o3, Y, 67, 3)], strays=False))
+    # (three streams that may each start over make the space explode; restarts are explored with 1 and 2 streams)
+    c.append(dict(name="3-senders", streams=[S(0o1, X, 65, 2), S(0o2, X, 66, 2), S(0o3, Y, 67, 3)], strays=False,
+                  kinds=("next", "skip", "twice", "swap")))
     c.append(dict(name="single-n4-strays", streams=[S(0o1, X, 65, 4)], strays=True))
     c.append(dict(name="blank-cache-id", streams=[S(0o1, 0, 65, 3)], strays=True))
     c.append(dict(name="single-n2", streams=[S(0o1, X, 65, 2)], strays=False))
@@ -53,7 +56,8 @@ def cfg_list(tier, seed):
             c.append(dict(name="single-n%d" % n, streams=[S(0o1, X, 65, n)], strays=False))
         c.append(dict(name="2-senders-same-id-n4-n5", streams=[S(0o1, X, 65, 4), S(0o2, X, 66, 5)], strays=False))
         c.append(dict(name="2-senders-same-id-n7-n2", streams=[S(0o1, X, 65, 7), S(0o2, X, 66, 2)], strays=False))
-        c.append(dict(name="3-senders-n3-n4-n2", streams=[S(0o1, X, 65, 3), S(0o2, X, 66, 4), S(0o3, Y, 67, 2)], strays=False))
+        c.append(dict(name="3-senders-n3-n4-n2", streams=[S(0o1, X, 65, 3), S(0o2, X, 66, 4), S(0o3, Y, 67, 2)], strays=False,
+                      kinds=("next", "skip", "twice", "swap")))
     for x in c:
         x.update(seed=seed, depth=dq, part="queue")
     # through a real node's update(): the configurations that exercise every kind of event
@@ -108,11 +112,12 @@ class Cfg:
         for k in range(self.n_reg):
             todo = hs.todo[k]
             n = len(self.streams[k]["frames"])
+            kinds = self.d.get("kinds") or ALL_KINDS
             if todo:
-                ev += [("next", k), ("skip", k), ("twice", k)]
-                if len(todo) >= 2 and not hs.swapped[k]:
+                ev += [(x, k) for x in ("next", "skip", "twice") if x in kinds]
+                if len(todo) >= 2 and not hs.swapped[k] and "swap" in kinds:
                     ev.append(("swap", k))
-            if not hs.rewound[k] and todo != tuple(range(n)):
+            if not hs.rewound[k] and todo != tuple(range(n)) and "rewind" in kinds:
                 ev.append(("rewind", k))
         for j, _ in enumerate(self.stray_events):
             if not hs.used[j]:
@@ -336,10 +341,7 @@ def step(st, ev, cfg, pid=PID):
 
 
 # ---------------------------------------------------------------- work items
-def w_bfs(d, rep):
-    cfg = Cfg(d)
-    name = "%s:%s" % (d["part"], d["name"])
-
+def _apply_fn(d, cfg, rep):
     def apply(st, ev, hist):
         viol, outcome = step(st, ev, cfg, d.get("pid", PID))
         rep.traces += 1
@@ -351,10 +353,15 @@ def w_bfs(d, rep):
             rep.violation(sig, "%s [%s %s: %s]" % (what, d["part"], d["name"], ", ".join(ev_str(cfg, e) for e in evs)),
                           {"cfg": d, "events": evs})
         if len(rep.samples) < 1 and outcome.endswith("delivers-complete") and len(evs) >= 4:
-            rep.sample({"part": name, "events": [ev_str(cfg, e) for e in evs], "outcome": outcome})
+            rep.sample({"part": d["part"], "cfg": d["name"], "events": [ev_str(cfg, e) for e in evs], "outcome": outcome})
+    return apply
 
+
+def w_bfs(d, rep):
+    cfg = Cfg(d)
+    name = "%s:%s" % (d["part"], d["name"])
     s0, t0 = rep.states, rep.transitions
-    done = bfs([(mk_state(cfg), "init")], cfg.alphabet, apply, canon, d["depth"], rep, clone=clone)
+    done = bfs([(mk_state(cfg), "init")], cfg.alphabet, _apply_fn(d, cfg, rep), canon, d["depth"], rep, clone=clone)
     rep.part(name, states=rep.states - s0, transitions=rep.transitions - t0, depth_completed=done)
     if done < d["depth"]:
         rep.notes[name] = "state space closed at depth %d" % done
